@@ -65,6 +65,8 @@ def tasks(tier, seed):
         ts += [{"part": "opts", "url": u, "name": "opts/%d" % u} for u in (0, 287, 575, 100)]
         ts.append({"part": "diag", "name": "diag"})
     ts.append({"part": "fresh", "name": "fresh"})
+    for k in range(4):
+        ts.append({"part": "successive", "k": k, "name": "successive/%d" % k})
     return ts
 
 
@@ -133,9 +135,12 @@ def one_case(u, o):
         opts["connection"] = o_conn
     label = "url %s options %r" % (url, opts)
     try:
-        ws = lib.websocket.WebSocket()
         try:
-            ws.connect(url, **opts)
+            if (len(url) + len(opts)) % 2:
+                ws = lib.websocket.create_connection(url, **opts)
+            else:
+                ws = lib.websocket.WebSocket()
+                ws.connect(url, **opts)
         except Exception as e:
             if not peers or peers[0].request_bytes is None:
                 return ({"kind": "connect-failed", "exc": type(e).__name__}, "%s: connect() raised %s: %s" % (label, type(e).__name__, e))
@@ -249,6 +254,70 @@ def check_request(raw, u, o, draws, label):
     return None
 
 
+def successive_case(u, o, n=3):
+    """n successive handshakes re-using the SAME option objects (header list / dict, subprotocol list): every request must be right,
+    and the caller's objects must not be modified."""
+    import copy
+    lib.reset_globals()
+    shim = env.install_urandom("real")
+    net = simnet.Net()
+    peers = []
+
+    def peer_for(net_, sock, address):
+        p = Peer()
+        peers.append(p)
+        return p
+
+    net.peer_for = peer_for
+    simnet.install(net)
+    url = make_url(u)
+    o_host, o_origin, o_supp, o_subp, o_cookie, o_header, o_conn = o
+    opts = {}
+    if o_host is not None:
+        opts["host"] = o_host
+    if o_origin != "absent":
+        opts["origin"] = o_origin
+    if o_supp:
+        opts["suppress_origin"] = True
+    if o_subp is not None:
+        opts["subprotocols"] = list(o_subp)
+    if o_cookie is not None:
+        opts["cookie"] = o_cookie
+    if o_header is not None:
+        opts["header"] = dict(o_header) if isinstance(o_header, dict) else list(o_header)
+    if o_conn is not None:
+        opts["connection"] = o_conn
+    before = copy.deepcopy(opts)
+    label = "url %s options %r (successive connections)" % (url, before)
+    try:
+        marks = []
+        for i in range(n):
+            marks.append(len(shim.draws))
+            ws = lib.websocket.WebSocket()
+            try:
+                ws.connect(url, **opts)
+            except Exception as e:
+                return ({"kind": "connect-failed", "exc": type(e).__name__, "nth": i}, "%s: connection %d raised %s: %s" % (label, i + 1, type(e).__name__, e))
+            ws.shutdown()
+        marks.append(len(shim.draws))
+    finally:
+        simnet.uninstall()
+        env.uninstall_urandom()
+    if opts != before:
+        return ({"kind": "caller-options-modified"}, "%s: the caller's option objects were modified: %r" % (label, opts))
+    for i, sock in enumerate(net.socks):
+        raw = b""
+        for ev in sock.log:
+            if ev[0] == "w":
+                raw += ev[1]
+            elif ev[0] == "r":
+                break
+        f = check_request(raw, u, o, shim.draws[marks[i]:marks[i + 1]], label + " #%d" % (i + 1))
+        if f is not None:
+            return (dict(f[0], nth=i), f[1])
+    return None
+
+
 def fresh_case():
     """three successive connections (two fresh objects + one object reused): keys pairwise distinct, one draw each"""
     lib.reset_globals()
@@ -318,6 +387,22 @@ def run_task(desc):
             for o in O:
                 run(u, o)
         res["samples"].append({"url": make_url(U[desc["ulo"]]), "options": "all 768 combinations"})
+    elif part == "successive":
+        for j, o in enumerate(O):
+            if j % 4 != desc["k"]:
+                continue
+            u = U[(j * 37) % len(U)]
+            n += 1
+            try:
+                f = successive_case(u, o)
+            except Exception as e:
+                v = as_violation(e)
+                if v is None:
+                    raise
+                f = (v.sig, v.what)
+            if f is not None:
+                runner.add_failure(res, f[0], f[1], {"case": "successive", "u": list(u), "o": [list(x) if isinstance(x, (list, tuple)) else x for x in o]})
+        res["samples"].append({"successive_connections": 3, "option_combinations": n})
     else:
         n += 1
         f = fresh_case()
@@ -331,6 +416,8 @@ def run_task(desc):
 def replay(rep):
     if rep["case"] == "fresh":
         f = fresh_case()
+    elif rep["case"] == "successive":
+        f = successive_case(tuple(rep["u"]), tuple(rep["o"]))
     else:
         o = tuple(rep["o"])
         f = one_case(tuple(rep["u"]), o)
